@@ -573,10 +573,11 @@ TrObsPeers ==
 (* the result an application got from connect(): one of the replies sent    *)
 TrConnectResult ==
   /\ IsEvent("obs.connect_result")
-  /\ \E i \in DOMAIN replies[N] :
-        /\ replies[N][i].ok = Cur.ok
-        /\ Cur.ok => replies[N][i].peer = Cur.peer
-        /\ replies' = [replies EXCEPT ![N] = RemoveAt(@, i)]
+  \* replies are a multiset: which of several equal pending replies this call consumed is
+  \* immaterial, so the first matching one is taken (keeps the validation linear)
+  /\ LET S == {i \in DOMAIN replies[N] : replies[N][i].ok = Cur.ok /\ (Cur.ok => replies[N][i].peer = Cur.peer)} IN
+        /\ S # {}
+        /\ replies' = [replies EXCEPT ![N] = RemoveAt(@, Min(S))]
   /\ Cur.ok /\ Has(Cur, "expected") => Cur.peer = Cur.expected
   /\ UNCHANGED <<vars, pendEv, conns, tasks, spawnQ, nextTick, phase, subs, subPos, addrNode,
                  lastAdd, closeT, faultT, idle, ka, runStart, lastSend, quietLen, callListed,
